@@ -1,5 +1,11 @@
 package main
 
+import (
+	"fmt"
+	"go/types"
+	"strings"
+)
+
 // Further intrinsics (kept apart from external.go so additions do not
 // depend on its formatting).
 
@@ -18,4 +24,132 @@ func init() {
 		}
 		return equals(x.t, x.v, y.v)
 	}
+}
+
+func init() {
+	externals[hpkg+"vTier"] = func(fr *frame, a []value) value { return tierLevel }
+	externals[hpkg+"vRegion"] = func(fr *frame, a []value) value {
+		label, _ := goString(a[0])
+		if openRegions[label] {
+			theEx.regions[label] = toTerm(a[1])
+		}
+		return nil
+	}
+}
+
+// strings.Builder: {addr *Builder; buf []byte}.  Methods are modelled on
+// the buf field directly (the real ones use unsafe).
+func builderBuf(p value) *value {
+	ptr := p.(*value)
+	if ptr == nil {
+		nilDeref()
+	}
+	st := (*ptr).(structure)
+	return &st[1]
+}
+
+func init() {
+	byteT := types.Typ[types.Uint8]
+	externals["(*strings.Builder).WriteString"] = func(fr *frame, a []value) value {
+		cell := builderBuf(a[0])
+		buf, _ := (*cell).([]value)
+		var add []value
+		switch s := a[1].(type) {
+		case string, symstr:
+			add, _ = strCells(s)
+		default:
+			theEx.unsupported("strings.Builder.WriteString of opaque text")
+		}
+		setCell(cell, appendCells(buf, add, byteT))
+		return tuple{len(add), iface{}}
+	}
+	externals["(*strings.Builder).Write"] = func(fr *frame, a []value) value {
+		cell := builderBuf(a[0])
+		buf, _ := (*cell).([]value)
+		add := a[1].([]value)
+		setCell(cell, appendCells(buf, add, byteT))
+		return tuple{len(add), iface{}}
+	}
+	externals["(*strings.Builder).WriteByte"] = func(fr *frame, a []value) value {
+		cell := builderBuf(a[0])
+		buf, _ := (*cell).([]value)
+		setCell(cell, appendCells(buf, []value{a[1]}, byteT))
+		return iface{}
+	}
+	externals["(*strings.Builder).WriteRune"] = func(fr *frame, a []value) value {
+		cell := builderBuf(a[0])
+		buf, _ := (*cell).([]value)
+		r, ok := a[1].(int32)
+		if !ok {
+			theEx.unsupported("strings.Builder.WriteRune of symbolic rune")
+		}
+		enc := []byte(string(r))
+		setCell(cell, appendCells(buf, bytesToValue(enc), byteT))
+		return tuple{len(enc), iface{}}
+	}
+	externals["(*strings.Builder).String"] = func(fr *frame, a []value) value {
+		cell := builderBuf(a[0])
+		buf, _ := (*cell).([]value)
+		return normStr(buf)
+	}
+	externals["(*strings.Builder).Len"] = func(fr *frame, a []value) value {
+		cell := builderBuf(a[0])
+		buf, _ := (*cell).([]value)
+		return len(buf)
+	}
+	externals["(*strings.Builder).Reset"] = func(fr *frame, a []value) value {
+		setCell(builderBuf(a[0]), []value(nil))
+		return nil
+	}
+	externals["(*strings.Builder).Grow"] = func(fr *frame, a []value) value { return nil }
+}
+
+// renderObserved renders an observed value under a model the way the
+// native harness runtime does (fmt %v).
+func renderObserved(v value, m Model) (string, bool) {
+	switch x := v.(type) {
+	case iface:
+		if x.t == nil {
+			return "<nil>", true
+		}
+		if s, ok := x.v.(*Sym); ok {
+			val := m.Eval(s.t)
+			w, signed, _ := intInfo(x.t)
+			if w == 0 {
+				if val != 0 {
+					return "true", true
+				}
+				return "false", true
+			}
+			if signed {
+				return fmt.Sprint(sext64(val, w)), true
+			}
+			return fmt.Sprint(val), true
+		}
+		if _, isSlice := x.t.Underlying().(*types.Slice); isSlice {
+			if cells, ok := x.v.([]value); ok {
+				parts := []string{}
+				for _, c := range cells {
+					s, ok := renderObserved(iface{t: x.t.Underlying().(*types.Slice).Elem(), v: c}, m)
+					if !ok {
+						return "", false
+					}
+					parts = append(parts, s)
+				}
+				return "[" + strings.Join(parts, " ") + "]", true
+			}
+		}
+		return renderObserved(x.v, m)
+	case bool, int, int8, int16, int32, int64, uint, uint8, uint16, uint32, uint64, uintptr, string:
+		return fmt.Sprint(x), true
+	case symstr:
+		b := make([]byte, len(x.b))
+		for i, c := range x.b {
+			b[i] = byte(m.Eval(byteTerm(c)))
+		}
+		return string(b), true
+	case decstr:
+		return fmt.Sprint(int64(m.Eval(x.x))), true
+	}
+	return "", false
 }
